@@ -20,9 +20,20 @@ use vf_core::{CaseCtx, Runner, pick_idx};
 /// 12 words the Porter stemmer maps to themselves (the repo's own model test
 /// uses them) + 4 that share stems, so the tokenizer is exercised as the only
 /// bridge between text and tokens.
-const WORDS: [&str; 16] = [
+const WORDS: [&str; 40] = [
     "red", "blue", "fox", "dog", "sun", "moon", "rock", "wind", "salt", "gold", "iron", "wolf", "running", "runs", "jumped", "jumping",
+    // a second tier, used by the "wide" and "long" documents only: one insert can then bring more
+    // new tokens than two tiny buckets hold (seeded change C11-3: the roll-over into a second fresh
+    // bucket). The model tokenises with the same tokenizer, so their stems need not be the words.
+    "sky", "sea", "oak", "elm", "ash", "bay", "cave", "dune", "fern", "glen", "hill", "isle", "lake", "marsh", "peak", "reef", "sand", "tide", "vale", "wave", "yard", "zinc", "amber", "birch",
 ];
+
+thread_local! {
+    /// bucket_overload_size of the indexes this case creates (tiny values force splits, migrations
+    /// and roll-overs; 96 is the value every earlier run used)
+    static BUCKET: std::cell::Cell<usize> = const { std::cell::Cell::new(96) };
+}
+const BUCKET_SIZES: [usize; 4] = [96, 64, 50, 200];
 const NIDS: u8 = 8;
 
 fn tokens_of(text: &str) -> BTreeMap<String, usize> {
@@ -134,11 +145,18 @@ pub enum FOp {
 #[derive(Clone, Debug, Serialize, Deserialize)]
 pub struct Case {
     pub ops: Vec<FOp>,
+    /// index into BUCKET_SIZES
+    #[serde(default)]
+    pub bucket: u8,
 }
 
 fn fop_strategy() -> impl Strategy<Value = FOp> {
     let id = 0u8..NIDS;
-    let words = prop::collection::vec(0u8..16, 1..8);
+    let words = prop_oneof![
+        8 => prop::collection::vec(0u8..16, 1..8),
+        2 => prop::collection::vec(0u8..40, 1..8),
+        1 => prop::collection::vec(0u8..40, 10..26),
+    ];
     prop_oneof![
         10 => (id.clone(), words.clone()).prop_map(|(id, words)| FOp::Insert { id, words }),
         4 => id.clone().prop_map(|id| FOp::RemoveOriginal { id }),
@@ -153,7 +171,7 @@ fn fop_strategy() -> impl Strategy<Value = FOp> {
 }
 
 pub fn case_strategy() -> impl Strategy<Value = Case> {
-    prop::collection::vec(fop_strategy(), 1..50).prop_map(|ops| Case { ops })
+    (prop::collection::vec(fop_strategy(), 1..50), prop_oneof![3 => Just(0u8), 2 => Just(1u8), 2 => Just(2u8), 1 => Just(3u8)]).prop_map(|(ops, bucket)| Case { ops, bucket })
 }
 
 fn params_of(sel: u8) -> Option<BM25Params> {
@@ -181,7 +199,7 @@ struct Store {
 }
 
 fn new_index() -> BM25Index<TokenizerChain> {
-    BM25Index::new("ft".to_string(), default_tokenizer(), Some(BM25Config { bucket_overload_size: 96, ..Default::default() }))
+    BM25Index::new("ft".to_string(), default_tokenizer(), Some(BM25Config { bucket_overload_size: BUCKET.with(|b| b.get()), ..Default::default() }))
 }
 
 fn load(store: &Store) -> Result<BM25Index<TokenizerChain>, String> {
@@ -272,7 +290,7 @@ fn observe(idx: &BM25Index<TokenizerChain>, docs: &Docs, at: &str) -> Result<(),
     if idx.len() != docs.len() {
         return Err(format!("{at}: len() = {}, {} documents are indexed", idx.len(), docs.len()));
     }
-    for w in 0..16u8 {
+    for w in 0..WORDS.len() as u8 {
         let res = idx.search(WORDS[w as usize], 10_000, None);
         let got = check_ranked(&res, &format!("{at}: term query {:?}", WORDS[w as usize]))?;
         let want = eval(&QT::Term(w), docs);
@@ -344,6 +362,8 @@ const SIG_RACE: &str = "threads:insert(id) overlaps remove(id) of another thread
 const SIG_STALE: &str = "remove(id,non-original text);insert(id,..):stale postings resurrected";
 
 pub fn run_case(case: &Case, ctx: &mut CaseCtx) -> Result<(), String> {
+    BUCKET.with(|b| b.set(BUCKET_SIZES[case.bucket as usize % BUCKET_SIZES.len()]));
+    ctx.label(format!("bucket_overload_size:{}", BUCKET_SIZES[case.bucket as usize % BUCKET_SIZES.len()]));
     let mut idx = new_index();
     let mut docs: Docs = Docs::new();
     let mut texts: BTreeMap<u64, String> = BTreeMap::new();
@@ -771,6 +791,7 @@ fn regression_cases() -> Vec<Case> {
                 FOp::Reload,
                 FOp::Query { q: QT::Term(1), k: 3, params: 0, prec: false },
             ],
+            bucket: 0,
         },
         Case {
             ops: vec![
@@ -781,6 +802,7 @@ fn regression_cases() -> Vec<Case> {
                 FOp::Compact,
                 FOp::Query { q: QT::Not(Box::new(QT::Term(0))), k: 3, params: 0, prec: true },
             ],
+            bucket: 0,
         },
     ]
 }
